@@ -372,7 +372,9 @@ class World:
         self.my4 = rng.choice([ip4('10.0.0.1'), ip4('192.168.129.7'), rng.bytes(4)])
         self.my6 = rng.choice([ip6('2001:db8::1'), bytes([0x30] * 16), rng.bytes(16), ip6('::ffff:10.0.0.1'), ip6('fe80::1:0:0:1')])
         self.cl4 = rng.choice([ip4('1.2.3.4'), rng.bytes(4)])
-        self.cl6 = rng.choice([bytes([0x20] * 16), rng.bytes(16)])
+        self.cl6 = rng.choice([bytes([0x20] * 16), rng.bytes(16), rng.bytes(16),
+                               # special-purpose source addresses: IPv4-mapped, IPv4-compatible, loopback, link-local
+                               ip6('::ffff:192.0.2.7'), bytes(12) + rng.bytes(4), ip6('::1'), ip6('fe80::2'), bytes(15) + b'\x02'])
         self.bad4 = ip4('6.6.6.6')
         self.bad6 = ip6('2001:db8::bad')
         self.other4 = ip4('10.0.0.99')
@@ -509,6 +511,15 @@ def gen_l4(rng, w, v6, proto):
 
 def gen_frame(rng, w):
     """A diverse frame for world w: (tags, frame)."""
+    tags, f = gen_frame0(rng, w)
+    if len(f) >= 12 and rng.chance(1, 12):
+        # unusual source MACs: the responder's own, broadcast, all-zero, a multicast group
+        f = f[:6] + rng.choice([w.mac, w.mac, BCAST, bytes(6), bytes.fromhex('01005e000001')]) + f[12:]
+        tags.append('smac-special')
+    return tags, f
+
+
+def gen_frame0(rng, w):
     tags = []
     cls, dmac = rng.choice(dst_macs(rng, w)[:1] * 6 + dst_macs(rng, w))
     tags.append('dmac:' + cls)
@@ -520,7 +531,7 @@ def gen_frame(rng, w):
         tags.append('arp')
         op = rng.choice([1, 1, 1, 2, 0, 3, 4, 65535])
         tpa = rng.choice([w.my4, w.my4, w.other4, rng.bytes(4)])
-        a = arp(op, w.cl_mac, w.cl4, rng.choice([bytes(6), rng.bytes(6)]), tpa,
+        a = arp(op, w.cl_mac, rng.choice([w.cl4, w.cl4, w.cl4, w.bad4, w.my4]), rng.choice([bytes(6), rng.bytes(6)]), tpa,
                 htype=rng.choice([1, 1, 1, 6, 0]), ptype=rng.choice([0x0800, 0x0800, 0x86dd]),
                 hlen=rng.choice([6, 6, 6, 8]), plen=rng.choice([4, 4, 4, 16]), pad=rng.bytes(rng.choice([0, 0, 18, rng.below(30)])))
         if rng.chance(1, 8):
